@@ -122,6 +122,7 @@ def run(tier):
     # only for a matching signature"): decide it here too instead of trusting it
     from rules import C11
     C11.rule_R1(res, prog, cg, prop=PROP, rid="C04.R4")
+    rule_R5(res, prog)
     return res.finish()
 
 
@@ -245,3 +246,55 @@ def rule_R3(res, prog, cg, c):
         res.instance("C04.R3", "parseServerKeyExchange: hsState = SERVER_HELLO_DONE at line %s (%d valuations)" % (
             ent["ln"], ent["n"]), ent["bad"] is None, finding=f)
     res.floor("C04.R3", 5)
+
+
+def rule_R5(res, prog):
+    """The algorithm of the peer's TLS 1.3 CertificateVerify is looked up in the list this endpoint advertised in its
+    signature_algorithms extension (RFC 8446 4.4.3: the algorithm MUST be one of those offered): the array searched in
+    the CertificateVerify parser is a field that the extension writers serialise under extension type
+    signature_algorithms (13) - not the signature_algorithms_cert list - together with its own length field."""
+    from sa import cfgutil as cu
+    from sa.pp import pp
+    rid = "C04.R5"
+    res.rule(rid, "CertificateVerify algorithm is checked against the list written into signature_algorithms (writer / reader agreement)")
+    EXT = prog.const("EXT_SIGNATURE_ALGORITHMS")
+
+    def fld(e):
+        e = strip(e)
+        while e is not None and e.get("k") == "cast":
+            e = strip(e["e"])
+        return e.get("f") if e is not None and e.get("k") == "mem" else None
+    written = set()
+    for fn in prog.functions.values():
+        for b, ln, c in fn.calls():
+            if c.get("fn") == "tls13WriteSigAlgs" and len(c.get("a", [])) >= 5:
+                t = strip(c["a"][4])
+                if t is not None and t.get("k") == "int" and t["v"] == EXT and fld(c["a"][2]):
+                    written.add((fld(c["a"][2]), fld(c["a"][3])))
+    if not written:
+        raise AnalysisBroken("C04.R5: no tls13WriteSigAlgs(.., EXT_SIGNATURE_ALGORITHMS) call found")
+    n = 0
+    for fn in sorted(prog.functions.values(), key=lambda f: f.qname):
+        if "CertificateVerify" not in fn.name or not fn.name.lower().startswith(("tls13parse", "parse")):
+            continue
+        for b, ln, c in fn.calls():
+            if c.get("fn") == "findFromUint16Array" and len(c.get("a", [])) >= 3:
+                n += 1
+                pair = (fld(c["a"][0]), fld(c["a"][1]))
+                ok = pair in written
+                f_ = None
+                if not ok:
+                    f_ = Finding(PROP, rid, fn.name, "CertificateVerify algorithm looked up in %s" % pair[0],
+                                 "%s:%s %s(): the peer's signature algorithm is searched in (%s, %s) but signature_algorithms is written "
+                                 "from %s: an algorithm the endpoint never offered (e.g. one listed only for certificates) is accepted in "
+                                 "CertificateVerify" % (fn.relfile, ln, fn.name, pair[0], pair[1], sorted(written)), file=fn.relfile, line=ln)
+                res.instance(rid, "%s:%s findFromUint16Array(%s, %s, ..)" % (fn.name, ln, pair[0], pair[1]), ok, finding=f_)
+    pv = prog.fn("tls13ParseCertificateVerify")
+    has = any(c.get("fn") == "findFromUint16Array" for b, ln, c in pv.calls())
+    f_ = None
+    if not has:
+        f_ = Finding(PROP, rid, pv.name, "CertificateVerify algorithm never checked against the offered list",
+                     "%s:%s tls13ParseCertificateVerify() no longer looks the peer's signature algorithm up in the advertised list: any "
+                     "algorithm the library implements is accepted" % (pv.relfile, pv.line), file=pv.relfile, line=pv.line)
+    res.instance(rid, "tls13ParseCertificateVerify looks the algorithm up in an advertised list", has, finding=f_)
+    res.floor(rid, 1)
